@@ -1,3 +1,11 @@
 package main
 
-func hooksFor(sc *Scenario) *hooks { return nil }
+import "github.com/fullstorydev/grpchan/inprocgrpc"
+
+func hooksFor(sc *Scenario) *hooks {
+	if sc.Cloner == "recording" {
+		rc := &recCloner{inner: inprocgrpc.ProtoCloner{}, owned: map[interface{}]*ownedMsg{}}
+		return &hooks{cloner: rc, rec: rc}
+	}
+	return nil
+}
